@@ -1,12 +1,38 @@
 """C16: lifecycle (ORDER of the shutdown sequence, GUARD idempotence, JOIN handle typestate, OWN entries freed with what they own, PAIR alloc/free of global containers, SESSION)."""
 from collections import defaultdict
 
-from .. import flow, rules
+from .. import flow, inline, rules
 from ..build import AnalysisBroken
 
 LEVEL = "other"
 ALLOCS = {"malloc", "calloc", "strdup", "strndup", "g_queue_new", "g_array_new", "g_array_sized_new", "g_hash_table_new", "g_string_new"}
 FREES = {"free", "g_queue_free", "g_array_free", "g_hash_table_destroy", "g_string_free", "g_queue_free_full"}
+
+
+def start_sibling_rule(chk, P, rid):
+    """shared with C13: the two start functions prepare a session identically.  Every store of a constant to a library global that one of them (with its same-file
+    static helpers inlined) performs, the other performs too; a flag that only one start function re-arms keeps its old value in sessions opened by the other."""
+    chk.rule(rid, "bidib_start_serial and bidib_start_pointer store the same constants to the same library globals (a session flag re-armed by one start function only stays "
+                  "stale in sessions opened through the other)")
+    def gstores(name):
+        f = inline.expanded(P, name)
+        out = {}
+        for i in f.all_insts():
+            if i.op == "store" and i["ptr"].get("k") == "global":
+                cv = rules.const_of(f, i["val"])
+                out.setdefault((i["ptr"]["name"], i["ptr"].get("off", 0), cv if cv is None else cv & 0xffffffff), i)
+        return out
+    if "bidib_start_serial" not in P.functions or "bidib_start_pointer" not in P.functions:
+        raise AnalysisBroken("start functions not found")
+    a, b = gstores("bidib_start_serial"), gstores("bidib_start_pointer")
+    n = len(set(a) | set(b))
+    for (key, inst, here, there) in [(k, a[k], "bidib_start_serial", "bidib_start_pointer") for k in sorted(set(a) - set(b), key=str)] + \
+                                    [(k, b[k], "bidib_start_pointer", "bidib_start_serial") for k in sorted(set(b) - set(a), key=str)]:
+        chk.violation(rid, here, "only-here:%s" % key[0], inst.loc(), "%s sets the global '%s' to %s at line %d, %s never does: after a session that changed it, a session opened with %s starts "
+                      "with the stale value" % (here, key[0], "a computed value" if key[2] is None else key[2], inst.line, there, there))
+    if set(a) == set(b):
+        chk.ok(rid, max(n, 1), {"global_stores_in_both": n})
+    chk.floor(rid.lower().replace("-", "_") + "_stores", n, 1)
 
 
 def run(chk, w):
@@ -142,6 +168,8 @@ def run(chk, w):
     _S = _sendapi.SendAPI(w)
     _reach = {n for n in P.reachable_functions(["bidib_stop"]) if n in P.functions and P.functions[n].blocks and P.functions[n].relfile.startswith(("src/highlevel/", "src/lowlevel/"))}
     _c09.uncond_rule(chk, P, _S, "C16-UNCOND", _reach, 4)
+
+    start_sibling_rule(chk, P, "C16-SIB")
 
     chk.rule("C16-JOIN", "every thread handle that is created is joined in stop and forgotten afterwards (a stale handle is never joined again)")
     created = {}
